@@ -160,3 +160,62 @@ func TestPropMem(t *testing.T) {
 	vk.Main(t, vk.Spec[memCase]{ID: "C01", Facet: "mem", Quick: 3000, Thorough: 25000, Gen: genMem, Check: checkMem,
 		Rule: "rapid-generated in-memory profiles (hostile strings incl. invalid UTF-8, extreme ints, dense/permuted/sparse/huge ids, unused entities, 0..4 sample types, multi-valued labels, unit lists nil/empty/mixed/full, 0..4 inline lines) through Write/WriteUncompressed/Parse/ParseData/ParseUncompressed/Copy; non-trivial = a sample with >=1 location and >=1 label, or the case crosses a representation threshold (packed lists, sparse ids, unit padding, droppable label); distinct by case hash"})
 }
+
+// ---- facet bulk: large, highly repetitive profiles (the compressed form is hundreds of times smaller) ----
+
+type bulkCase struct {
+	P   *gen.Prof
+	Rep int
+}
+
+var bulkOpts = gen.Opts{Alpha: gen.Plain, MaxSamples: 3, MaxDepth: 4, MaxLines: 2, MinTypes: 1, MaxTypes: 2, AnyIDs: true, Labels: true, NumLabels: true}
+
+func genBulk(t *rapid.T) *bulkCase {
+	return &bulkCase{P: gen.Profile(t, bulkOpts), Rep: rapid.SampledFrom([]int{500, 5000, 20000, 60000, 150000}).Draw(t, "rep")}
+}
+
+func checkBulk(c *bulkCase, o *vk.Obs) []string {
+	var e vk.Errs
+	p := c.P.Build()
+	if len(p.Sample) == 0 {
+		return nil
+	}
+	base := p.Sample
+	for i := 1; i < c.Rep; i++ {
+		s := *base[i%len(base)]
+		p.Sample = append(p.Sample, &s)
+	}
+	var gz, raw bytes.Buffer
+	if err := p.Write(&gz); err != nil {
+		return []string{"Write: " + err.Error()}
+	}
+	p.WriteUncompressed(&raw)
+	ratio := raw.Len() / (gz.Len() + 1)
+	o.Label(fmt.Sprintf("ratio>=%d", ratio/100*100))
+	o.NonTrivial = ratio >= 100
+	want := model.Snap(p, model.SnapOpts{Norm: true})
+	for name, f := range map[string]func() (*profile.Profile, error){
+		"Parse(Write)":                 func() (*profile.Profile, error) { return profile.Parse(bytes.NewReader(gz.Bytes())) },
+		"ParseData(Write)":             func() (*profile.Profile, error) { return profile.ParseData(gz.Bytes()) },
+		"ParseData(WriteUncompressed)": func() (*profile.Profile, error) { return profile.ParseData(raw.Bytes()) },
+	} {
+		got, err := f()
+		if err != nil {
+			e.Addf("%s: valid profile of %d samples (%d bytes, %d compressed) rejected: %v", name, len(p.Sample), raw.Len(), gz.Len(), err)
+			continue
+		}
+		if len(got.Sample) != len(p.Sample) {
+			e.Addf("%s: %d samples written, %d read back (%d bytes, %d compressed)", name, len(p.Sample), len(got.Sample), raw.Len(), gz.Len())
+			continue
+		}
+		if s := model.Snap(got, model.SnapOpts{}); s != want {
+			e.Addf("%s differs from the input: %s", name, firstDiff(want, s))
+		}
+	}
+	return e
+}
+
+func TestPropBulk(t *testing.T) {
+	vk.Main(t, vk.Spec[bulkCase]{ID: "C01", Facet: "bulk", Quick: 25, Thorough: 120, Gen: genBulk, Check: checkBulk,
+		Rule: "small generated profiles whose samples are repeated 500..150000 times (raw size up to several MB, compressed several hundred times smaller) through Write/Parse, Write/ParseData and WriteUncompressed/ParseData; oracle: same sample count and same structural snapshot; non-trivial = compression ratio >= 100"})
+}
